@@ -414,7 +414,8 @@ func (u *Unit) libraryCall(c *ast.CallExpr, fun ast.Expr, env *Env) ([]Outcome, 
 		u.poolObjs[b.S] = r
 		return ret(env, Value{b, u.Info.TypeOf(c)}), true
 	case "sync.Pool.Put":
-		argv(0)
+		v := argv(0)
+		u.poolPutCheck(env, c, v)
 		return ret(env), true
 	case "time.Now":
 		r := u.D.Fresh("now", SInt)
@@ -629,3 +630,27 @@ func (u *Unit) havocFreshObject(env *Env, r Term) {
 }
 
 var _ = token.NoPos
+
+// the pool invariant of objects of type *T is the contract macro POOLINV_T(p): asserted at Put, assumed at Get
+func (u *Unit) poolInvFor(env *Env, r Value) (Term, bool) {
+	name := "POOLINV_" + typeNameOf(r.Ty)
+	if _, ok := u.Prog.Contracts.Macros[name]; !ok {
+		return Term{}, false
+	}
+	sc := *u.ownCtx
+	sc.bound = map[string]Value{"poolobj": r}
+	save := u.inSpec
+	u.inSpec = true
+	t := u.sv(u.parseSpec(Clause{Text: name + "(poolobj)"}), env, &sc)
+	u.inSpec = save
+	return t.Term, true
+}
+
+func (u *Unit) poolPutCheck(env *Env, c *ast.CallExpr, v Value) {
+	if v.Ty == nil || u.sortOf(v.Ty) != SRef {
+		return
+	}
+	if inv, ok := u.poolInvFor(env, v); ok {
+		u.assert(env, "pre/sync.Pool.Put/pool-invariant@"+u.siteTag(c), "pre", c.Pos(), "POOLINV_"+typeNameOf(v.Ty)+"("+u.exprText(c.Args[0])+")", inv)
+	}
+}
